@@ -76,6 +76,8 @@ def gen_case(rng, i):
     nsp = int(rng.integers(2, {1: 11, 2: 7, 3: 4}[n - m])) if rng.integers(3) == 0 else None
     # a second, interior row so that batches mix classes
     extra = Mt @ gen.interior_x(rng, lbv, ubv, 1, margin=0.1)[0] + c0
+    if i % 7 == 3:
+        b, extra = np.round(b), np.round(extra)     # integer-valued targets (handed over as int64 by the harness)
     s.update({"b": b, "cls": k, "extra": extra, "two_rows": bool(rng.integers(3) == 0),
               "error": ["raise", "ignore", "warn"][rng.integers(3)], "nsp": nsp,
               "api": ["function", "estimator"][rng.integers(2)], "rank1": bool(rng.integers(2))})
